@@ -245,8 +245,10 @@ func c20Hammer(rc *RunCtx) *Violation {
 			l.run(rounds)
 		}(l)
 	}
+	noBeatPhase.Store(1)
 	close(start)
 	wg.Wait()
+	noBeatPhase.Store(0)
 	heartbeat.Add(1)
 	ws, calls := 0, 0
 	for i, l := range par {
